@@ -49,9 +49,16 @@ type Global struct {
 
 // Func is a generated function or method.
 type Func struct {
-	Name    string  `json:"name"`
-	Group   bool    `json:"group,omitempty"` // print adjacent named parameters / results of one type as "a, b int"
-	AsVar   bool    `json:"asvar,omitempty"` // declared as a package variable holding a function literal: var h0 = func(...) ... {...}
+	Name  string `json:"name"`
+	Group bool   `json:"group,omitempty"` // print adjacent named parameters / results of one type as "a, b int"
+	AsVar bool   `json:"asvar,omitempty"` // declared as a package variable holding a function literal: var h0 = func(...) ... {...}
+	// Alias (with AsVar): the variable holds a declared function instead of a literal: var hv0 = f3 (Params / Results give
+	// the type, there is no body). ViaInit (with AsVar): the variable is declared without a value and set by an init()
+	// function printed right after it: var hv0 func(int) int; func init() { hv0 = ... }. File2 (with AsVar): the
+	// declaration goes to the second file of the package (Prog.File2Name).
+	Alias   string  `json:"alias,omitempty"`
+	ViaInit bool    `json:"via_init,omitempty"`
+	File2   bool    `json:"file2,omitempty"`
 	Recv    *Field  `json:"recv,omitempty"`
 	Params  []Field `json:"params,omitempty"`
 	Results []Field `json:"results,omitempty"`
@@ -87,10 +94,14 @@ type Prog struct {
 	DeployLast bool    `json:"deploy_last,omitempty"`
 	Deploy     []*Node `json:"deploy,omitempty"`
 	Funcs      []Func  `json:"funcs"`
-	// Lib: exported functions of a second package of the module (<pkg>lib) which the program imports under the name lib.
-	Lib   []Func   `json:"lib,omitempty"`
-	Calls []Call   `json:"calls"`
-	Feat  []string `json:"feat,omitempty"` // constructs the generator used (class labels)
+	// Lib: exported functions (and exported variables of function type: AsVar) of a second package of the module
+	// (<pkg>lib) which the program imports under the name lib.
+	Lib []Func `json:"lib,omitempty"`
+	// File2Name: the package consists of two files, prog.go and this one; the second file holds the package variables of
+	// function type marked File2 (the compilers see the files in the order of their names).
+	File2Name string   `json:"file2_name,omitempty"`
+	Calls     []Call   `json:"calls"`
+	Feat      []string `json:"feat,omitempty"` // constructs the generator used (class labels)
 }
 
 // Case is a batch of programs built by one invocation of the Go toolchain.
@@ -109,6 +120,40 @@ var deployParams = []Field{{"data", "any"}, {"isUpdate", "bool"}}
 const libAlias = "lib"
 
 func libPath(pkg string) string { return "c14mod/" + pkg + "lib" }
+
+// convertAlias / convertPath: the one package of the interop module the programs use (its functions are inlined by the
+// compiler; the two used here are plain Go for the standard toolchain).
+const (
+	convertAlias = "convert"
+	convertPath  = "github.com/nspcc-dev/neo-go/pkg/interop/convert"
+)
+
+// usesConvert: the program text calls a function of the convert package (the module of the case needs the interop module).
+func usesConvert(text string) bool { return strings.Contains(text, convertAlias+".") }
+
+// withHeader puts the package clause and the imports the text needs in front of it.
+func withHeader(pkg, text string) string {
+	var imps []string
+	if strings.Contains(text, libAlias+".") {
+		imps = append(imps, fmt.Sprintf("%s %q", libAlias, libPath(pkg)))
+	}
+	if usesConvert(text) {
+		imps = append(imps, fmt.Sprintf("%q", convertPath))
+	}
+	h := "package " + pkg + "\n\n"
+	switch len(imps) {
+	case 0:
+	case 1:
+		h += "import " + imps[0] + "\n\n"
+	default:
+		h += "import (\n"
+		for _, i := range imps {
+			h += "\t" + i + "\n"
+		}
+		h += ")\n\n"
+	}
+	return h + text
+}
 
 // LibSource renders the imported package.
 func (pr *Prog) LibSource(pkg string) string {
@@ -569,6 +614,14 @@ func fieldListG(fs []Field, group bool) string {
 	return strings.Join(parts, ", ")
 }
 
+func typesOnly(fs []Field) []Field {
+	out := make([]Field, len(fs))
+	for i, f := range fs {
+		out[i] = Field{Type: f.Type}
+	}
+	return out
+}
+
 func (p *printer) fn(f *Func) {
 	recv := ""
 	if f.Recv != nil {
@@ -580,6 +633,37 @@ func (p *printer) fn(f *Func) {
 		res = " " + f.Results[0].Type
 	case len(f.Results) > 0:
 		res = " (" + fieldListG(f.Results, f.Group) + ")"
+	}
+	if f.AsVar && (f.Alias != "" || f.ViaInit) {
+		typ := "func(" + fieldListG(typesOnly(f.Params), false) + ")" + res
+		val := f.Alias
+		switch {
+		case f.Alias != "" && !f.ViaInit:
+			p.line("var %s = %s", f.Name, f.Alias)
+			p.line("")
+			return
+		case f.Alias != "":
+			p.line("var %s %s", f.Name, typ)
+			p.line("")
+			p.line("func init() {")
+			p.ind++
+			p.line("%s = %s", f.Name, val)
+			p.ind--
+			p.line("}")
+			p.line("")
+			return
+		}
+		p.line("var %s %s", f.Name, typ)
+		p.line("")
+		p.line("func init() {")
+		p.ind++
+		p.line("%s = func(%s)%s {", f.Name, fieldListG(f.Params, f.Group), res)
+		p.block(f.Body)
+		p.line("}")
+		p.ind--
+		p.line("}")
+		p.line("")
+		return
 	}
 	if f.AsVar {
 		p.line("var %s = func(%s)%s {", f.Name, fieldListG(f.Params, f.Group), res)
@@ -594,12 +678,6 @@ func (p *printer) fn(f *Func) {
 // Source renders the contract text. The very same text (package clause included) is given to both compilers.
 func (pr *Prog) Source(pkg string) string {
 	p := &printer{}
-	p.line("package %s", pkg)
-	p.line("")
-	if len(pr.Lib) > 0 {
-		p.line("import %s %q", libAlias, libPath(pkg))
-		p.line("")
-	}
 	for _, s := range pr.Structs {
 		p.line("type %s struct {", s.Name)
 		p.ind++
@@ -626,7 +704,7 @@ func (pr *Prog) Source(pkg string) string {
 	}
 	for i := range pr.Funcs {
 		// (ahead of the other package variables: their initialisers may call it)
-		if pr.Funcs[i].AsVar {
+		if pr.Funcs[i].AsVar && !(pr.Funcs[i].File2 && pr.File2Name != "") {
 			p.fn(&pr.Funcs[i])
 		}
 	}
@@ -663,5 +741,16 @@ func (pr *Prog) Source(pkg string) string {
 	if pr.HasDeploy && pr.DeployLast {
 		deploy()
 	}
-	return p.sb.String()
+	return withHeader(pkg, p.sb.String())
+}
+
+// Source2 renders the second file of the package (only for programs with File2Name).
+func (pr *Prog) Source2(pkg string) string {
+	p := &printer{}
+	for i := range pr.Funcs {
+		if pr.Funcs[i].AsVar && pr.Funcs[i].File2 {
+			p.fn(&pr.Funcs[i])
+		}
+	}
+	return withHeader(pkg, p.sb.String())
 }
